@@ -121,7 +121,19 @@ pub fn case(rng: &mut Rng, out: &mut Out, bound: usize) {
     for (i, l) in g2.lexemes.iter_mut().enumerate() {
         *l = Rx::Lit(format!("t{i}x"));
     }
-    let lark = g2.to_lark();
+    let mut lark = g2.to_lark();
+    // a third of the grammars mark some rules as captures: such symbols must survive the optimiser (the dump
+    // shows them with a CAPTURE marker, which the language comparison treats as one more terminal); the
+    // optimiser model has no attributes, so these cases are implementation-only
+    let captured = rng.chance(1, 3);
+    if captured {
+        for i in 1..g2.rules.len() {
+            if rng.chance(1, 2) {
+                let named = if rng.chance(1, 2) { "[capture]".to_string() } else { format!("[capture=\"c{i}\"]") };
+                lark = lark.replace(&format!("\nn{i}: "), &format!("\nn{i}{named}: "));
+            }
+        }
+    }
     let gi = GrammarInit::Serialized(TopLevelGrammar::from_lark(lark.clone()));
     let Ok((gram, lex)) = gi.to_internal(None, ParserLimits::default()) else {
         out.count("grammar_rejected", 1);
@@ -129,7 +141,17 @@ pub fn case(rng: &mut Rng, out: &mut Out, bound: usize) {
     };
     let before = gram.to_string(Some(&lex));
     let after = gram.optimize().to_string(Some(&lex));
-    compare_dumps(out, &lark, &before, &after, bound, true);
+    if captured {
+        out.count("grammars_with_captures", 1);
+        // every captured symbol is still there, with its marker
+        for l in before.lines().filter(|l| l.contains("CAPTURE")) {
+            let name = l.split('⇦').next().unwrap_or("").trim().to_string();
+            if !name.is_empty() && !after.lines().any(|a| a.contains("CAPTURE") && a.split('⇦').next().unwrap_or("").trim() == name) {
+                out.violation(&format!("the captured symbol {name} does not survive optimize()"), format!("{lark}\n--- before ---\n{before}\n--- after ---\n{after}"));
+            }
+        }
+    }
+    compare_dumps(out, &lark, &before, &after, bound, !captured);
 }
 
 /// languages (terminal sequences up to `bound`) of the grammar dumps before and after optimisation;
@@ -193,11 +215,13 @@ fn compare_dumps(out: &mut Out, lark: &str, before: &str, after: &str, bound: us
         .iter()
         .map(|w| ints(&w.iter().map(|s| terms.iter().position(|x| x == s).unwrap_or(999)).collect::<Vec<_>>()))
         .collect();
-    out.case(
-        tagged("optlang", vec![tagged("rules", rules_sx.clone()), int(idx(&s1).unwrap()), int(terms.len()), int(bound)]),
-        tagged("ok", after_lang),
-        l1.len() > 1,
-    );
+    if !terms.iter().any(|t| t == "CAPTURE") {
+        out.case(
+            tagged("optlang", vec![tagged("rules", rules_sx.clone()), int(idx(&s1).unwrap()), int(terms.len()), int(bound)]),
+            tagged("ok", after_lang),
+            l1.len() > 1,
+        );
+    }
     // the optimiser itself: rules of every symbol after optimisation, symbol by symbol (by name)
     if s2 == s1 && optimizer_case {
         let after_rules: Vec<Sx> = names
